@@ -171,7 +171,7 @@ class Engine:
         cons = [c for c in cons if not (z3.is_true(c))]
         key = tuple(sorted(c.get_id() for c in cons))
         if not want_model and key in self.cache:
-            return self.cache[key], None
+            return self.cache[key][0], None
         for c in cons:
             if z3.is_false(c):
                 return "unsat", None
@@ -188,7 +188,8 @@ class Engine:
             self.slowlog("slow query %.1fs -> %s (%d constraints)" % (dt, r, len(cons)))
         self.res.queries += 1
         rs = str(r)
-        self.cache[key] = rs
+        # the cached entry keeps its ASTs alive: z3 recycles the ids of dead ASTs, which would alias keys
+        self.cache[key] = (rs, cons)
         return rs, (s.model() if want_model and rs == "sat" else None)
 
     def decide(self, st, c):
